@@ -164,6 +164,7 @@ def check_start_benchmark(schedule, hosts=None):
 
     hosts = hosts or [{"host": "localhost", "cores": 2}, {"host": "h2", "cores": 2}]
     started = []
+    handed = []
 
     class Actor:
         def create_client(self, host, cfg, worker_id):
@@ -171,6 +172,8 @@ def check_start_benchmark(schedule, hosts=None):
 
         def start_worker(self, worker, worker_id, cfg, track, client_allocations, client_contexts=None):
             started.append((worker_id, sorted(client_contexts)))
+            for a in client_allocations.allocations:
+                handed.append((worker_id, a["client_id"], a["tasks"]))
 
     class Cfg:
         def opts(self, section, key, **kw):
@@ -211,6 +214,14 @@ def check_start_benchmark(schedule, hosts=None):
     ids = sorted(c for _w, cs in started for c in cs)
     if ids != list(range(nclients)):
         return ("clients-started", f"client ids handed to workers {ids}, expected 0..{nclients - 1}")
+    # the row of the allocation matrix a worker gets for client c is the Allocator's row c (what the client *does*), also when a worker
+    # simulates several clients
+    rows = driver.Allocator(schedule).allocations
+    if sorted(c for _w, c, _t in handed) != list(range(nclients)):
+        return ("rows-handed", f"allocation rows handed for clients {sorted(c for _w, c, _t in handed)}, expected 0..{nclients - 1}")
+    for w, c, tasks in handed:
+        if list(tasks) != list(rows[c]):
+            return ("row-of-client", f"worker {w} got for client {c} a row that is not row {c} of the allocation matrix: {tasks} != {rows[c]}")
     for step in range(d.number_of_steps):
         d.current_step = step
         try:
